@@ -13,6 +13,10 @@ volatile long vf_alloc_calls, vf_fail_at, vf_fail_from, vf_fail_hits;
 volatile long vf_alloc_budget, vf_bytes_budget;
 volatile int vf_budget_tripped;
 volatile long vf_foreign_frees;
+/* scheduling hook (schedule injector of C13): called at every library allocator call */
+void (*volatile vf_sched_point)(int point, void *mutex);
+#define VF_PT_ALLOC_ 5
+static inline void sched_alloc_point(void) { void (*sp)(int, void *) = vf_sched_point; if (sp) sp(VF_PT_ALLOC_, NULL); }
 
 char *__real_strdup(const char *);
 
@@ -98,18 +102,21 @@ static bool should_fail(size_t want) {
 }
 
 void *__wrap_malloc(size_t n) {
+    sched_alloc_point();
     if (should_fail(n)) { errno = ENOMEM; return NULL; }
     void *p = __real_malloc(n);
     ladd(p, n);
     return p;
 }
 void *__wrap_calloc(size_t a, size_t b) {
+    sched_alloc_point();
     if (should_fail(a * b)) { errno = ENOMEM; return NULL; }
     void *p = __real_calloc(a, b);
     ladd(p, a * b);
     return p;
 }
 void *__wrap_realloc(void *old, size_t n) {
+    sched_alloc_point();
     if (should_fail(n)) { errno = ENOMEM; return NULL; }
     if (old && lon && !vf_ledger_has(old)) vf_foreign_frees++;
     size_t osz = old ? vf_ledger_size(old) : 0; (void)osz;
@@ -120,6 +127,7 @@ void *__wrap_realloc(void *old, size_t n) {
     return p;
 }
 char *__wrap_strdup(const char *s) {
+    sched_alloc_point();
     size_t n = strlen(s) + 1;
     if (should_fail(n)) { errno = ENOMEM; return NULL; }
     char *p = __real_strdup(s);
@@ -127,6 +135,7 @@ char *__wrap_strdup(const char *s) {
     return p;
 }
 void __wrap_free(void *p) {
+    sched_alloc_point();
     if (p && lon && !ldel(p)) {
         vf_foreign_frees++;
 #if !defined(__SANITIZE_ADDRESS__)
